@@ -34,6 +34,14 @@ Lemma refl_drop8_refuted :
   has_ty s8 (TTuple [TS SI8; TS SI32]) = true /\ refl_enc only_drop8 s8 <> spec_enc s8.
 Proof. split; vm_compute; [reflexivity|discriminate]. Qed.
 
+(* C03: a list the reflection encoder writes (as documented) and the reflection decoder refuses: the
+   decoder's bound of 4096 entries is not applied by the encoder (independent of the switches) *)
+Definition bytes4097 := VList (repeat (VNum 1 0) 4097).
+Lemma refl_list_unbounded_refuted :
+  has_ty bytes4097 (TList (TS SU8)) = true /\ refl_enc wclean bytes4097 = spec_enc bytes4097 /\
+  exists l, refl_dec wclean tval_eqb (TList (TS SU8)) (spec_enc bytes4097) = RErr l.
+Proof. split; [vm_compute; reflexivity|]. split; [vm_compute; reflexivity|]. eexists. vm_compute. reflexivity. Qed.
+
 (* C08: truncated encodings that are accepted *)
 Definition hello := VTup [VStr (bytes_of_string "hello")].
 Lemma sig_read_prefix_refuted :
